@@ -229,6 +229,8 @@ pub fn c11_directed() -> Vec<(&'static str, &'static str)> {
         ("nested-loops-volgende-inner", "stel geteld = 0; stel r = 0; zolang r < 3 { r += 1; stel k = 0; zolang k < 3 { k += 1; als k == 2 { volgende }; geteld += 1 } }; [geteld, r]"),
         ("three-arm-chain-each-arm", "functie kies(x) { als x == 1 { \"een\" } anders als x == 2 { \"twee\" } anders als x == 3 { \"drie\" } anders { \"veel\" } }; [kies(1), kies(2), kies(3), kies(4)]"),
         ("loop-zero-times-value", "stel r = zolang nee { 5 }; [r]"),
+        ("antwoord-in-value-block-in-loop-leaves-names-alone", "functie f(n) { stel a = 1; stel i = 0; zolang i < n { i += 1; stel a = a + 10; stel r = als i > 100 { antwoord a } anders { 0 } }; a }; [f(0), f(1), f(3), f(1000)]"),
+        ("antwoord-in-nested-blocks-leaves-names-alone", "functie g(x) { stel t = \"buiten\"; { stel t = \"binnen\"; als x > 5 { { antwoord t } } }; t }; [g(1), g(9)]"),
         ("if-in-value-position-inside-loop", "stel i = 0; stel som = 0; zolang i < 4 { i += 1; som += als i % 2 == 0 { 10 } anders als i == 3 { 100 } anders { 1 } }; som"),
     ]
 }
@@ -312,6 +314,9 @@ pub fn c12_directed() -> Vec<(&'static str, String)> {
         ("call-in-condition", "functie waar() { ja } functie tel(n) { n + 1 } als waar() { tel(1) } anders { tel(2) }".into()),
         ("call-above-64k-of-code", format!("stel x = 0; functie tel() {{ x = x + 1; x }}; {} [tel(), tel(), x]", "x = x + 1; ".repeat(9000))),
         ("calls-throughout-100k-of-code", format!("functie dubbel(v) {{ stel w = v * 2; w }}; stel som = 0; {} [som, dubbel(som)]", (0..6000).map(|k| format!("som = som + dubbel({}); ", k % 7)).collect::<String>())),
+        // every activation gets its own values, also for what a builtin hands back
+        ("activation-owns-builtin-results", "functie diep(n) { stel s = string(\"ab\"); als n > 0 { s[0] = \"X\"; stel r = diep(n - 1); [s, r] } anders { s } }; stel bewaard = string(\"ab\"); [diep(2), bewaard, string(\"ab\")]".into()),
+        ("activation-owns-literal-arguments", "functie f(t) { t[0] = \"#\"; t } functie g() { f(\"abc\") }; [g(), g(), f(string(\"abc\")), f(string(\"abc\"))]".into()),
         // a helper function declared inside a function is a local of that activation, whatever the name means outside
         ("local-function-named-like-a-global-function", "functie hulp() { 1 } functie buiten() { functie hulp() { 2 }; hulp() }; stel eerst = hulp(); [buiten(), hulp(), eerst]".into()),
         ("local-function-named-like-a-global-variable", "stel teller = 10; functie buiten() { functie teller() { 7 }; teller() }; [buiten(), teller, buiten(), teller + 1]".into()),
